@@ -26,8 +26,6 @@ import (
 	"sync"
 	"time"
 
-	"github.com/go-openapi/runtime/client"
-
 	"verif/engine/report"
 )
 
@@ -124,13 +122,13 @@ func caseKey(c *Case) string {
 // runSteps executes the steps in order in this process. A Runtime is created at the
 // first step that names its id, from that step's host, base path and transport schemes.
 func runSteps(steps []HStep) []observation {
-	rts := map[int]*client.Runtime{}
+	rts := map[int]*rtHandle{}
 	out := make([]observation, len(steps))
 	for i := range steps {
 		c := &steps[i].Case
 		rt, ok := rts[steps[i].RT]
 		if !ok {
-			rt = client.New(c.Host, c.Base.Render(), c.Rt)
+			rt = newHandle(c)
 			rts[steps[i].RT] = rt
 		}
 		ord := make([]int, len(c.Params))
@@ -197,7 +195,7 @@ type failOut struct {
 // soloSatisfies re-executes the case as the only request of a fresh process and tells
 // whether the failure class is absent there.
 func soloSatisfies(c *Case, class string) bool {
-	if class == "order-dependent" || len(c.Params) >= 2 {
+	if class == "order-dependent" || strings.HasPrefix(class, "variant-differs/") || len(c.Params) >= 2 {
 		// a differential over several executions, or a case whose result may hinge on Go's map
 		// iteration order over the parameters: one solo execution decides nothing
 		return false
@@ -275,7 +273,7 @@ func childMain(args []string) {
 func sweepWorker(in sweepIn) *sweepOut {
 	pl := buildPlan(in.Tier == "thorough")
 	out := &sweepOut{Total: map[string]*tallyOut{}, Fails: map[string]*classOut{}}
-	for _, n := range []string{"P", "Q", "S", "X", "B", "T"} {
+	for _, n := range []string{"P", "Q", "S", "X", "B", "T", "F"} {
 		out.Total[n] = &tallyOut{Outcomes: map[string]int64{}}
 	}
 	n := len(pl.shards)
@@ -333,7 +331,7 @@ func runSweeps(r *report.R, pl *plan, deadline time.Time) *sweepResult {
 		w = 1
 	}
 	res := &sweepResult{total: map[string]*tally{}, workers: w}
-	for _, n := range []string{"P", "Q", "S", "X", "B", "T"} {
+	for _, n := range []string{"P", "Q", "S", "X", "B", "T", "F"} {
 		res.total[n] = newTally()
 	}
 	outs := make([]*sweepOut, w)
@@ -497,6 +495,31 @@ func historyPlan(thorough bool) (cases []Case, steps []gstep, sizes map[string]i
 		}
 	}
 	sizes["ordered_pairs"] = npairs
+	// (c) the exported fields: ONE Runtime built with a decoy host and base path, its Host and BasePath
+	// fields assigned before every call; all ordered pairs over both base paths (and two hosts), so the
+	// second call re-targets the Runtime the first call used
+	var fidx []int
+	for g, grp := range histAlphabet(true) {
+		for i := range grp {
+			c := grp[i]
+			c.Via = "field"
+			if g == 1 {
+				c.Host = "h1.test"
+			}
+			index[caseKey(&c)] = len(cases)
+			fidx = append(fidx, len(cases))
+			cases = append(cases, c)
+		}
+	}
+	for _, a := range fidx {
+		for _, b := range fidx {
+			one := fresh()
+			steps = append(steps, gstep{a, one, "pair/one-runtime-fields-reassigned"}, gstep{b, one, "pair/one-runtime-fields-reassigned"})
+		}
+	}
+	sizes["field_cases"] = len(fidx)
+	sizes["ordered_pairs_fields_reassigned"] = len(fidx) * len(fidx)
+	sizes["cases"] = len(cases)
 	if thorough {
 		red := histAlphabet(true)
 		ntr := 0
@@ -651,10 +674,11 @@ func runHistories(r *report.R, deadline time.Time) *histResult {
 		"caller_query_sets": len(histQueries), "values": histValues, "operation_scheme_lists": histOpSchemes, "host": histHost,
 	})
 	r.Set("history_sizes", sizes)
-	res.rule = fmt.Sprintf("(b) the list of all %d history cases (2 base paths x 5 patterns with/without static query of the same/another name x 4 caller query sets x 2 values x 2 operation scheme lists) built forward and then backward, a fresh Runtime per call; (a) all %d ordered pairs of cases with the same base path, each pair on ONE Runtime and on one Runtime per call", sizes["cases"], sizes["ordered_pairs"])
+	res.rule = fmt.Sprintf("(b) the list of all %d history cases (144 = 2 base paths x 5 patterns with/without static query of the same/another name x 4 caller query sets x 2 values x 2 operation scheme lists) built forward and then backward, a fresh Runtime per call; (a) all %d ordered pairs of cases with the same base path, each pair on ONE Runtime and on one Runtime per call", sizes["cases"], sizes["ordered_pairs"])
 	if r.Thorough() {
 		res.rule += fmt.Sprintf("; all %d ordered triples over a reduced alphabet of %d cases per base path, same two ways", sizes["ordered_triples"], sizes["triple_alphabet_per_base_path"])
 	}
+	res.rule += fmt.Sprintf("; (c) all %d ordered pairs of %d cases (both base paths, two hosts) on ONE Runtime constructed with a decoy host and base path whose exported Host and BasePath fields are assigned before each call", sizes["ordered_pairs_fields_reassigned"], sizes["field_cases"])
 	res.rule += "; every step must equal the solo result of its case (the case as the only request of a fresh process) and the solo results are judged by the reference."
 
 	solo, err := soloAll(cases)
@@ -674,7 +698,7 @@ func runHistories(r *report.R, deadline time.Time) *histResult {
 
 	// execute the whole plan serially in THIS process (which has built no request so far);
 	// steps that share a Runtime are consecutive
-	var cur *client.Runtime
+	var cur *rtHandle
 	curID := -1
 	var evals, seqs, nontriv int64
 	ord1 := []int{0}
@@ -686,7 +710,7 @@ func runHistories(r *report.R, deadline time.Time) *histResult {
 		s := steps[i]
 		c := &cases[s.ci]
 		if s.rt != curID {
-			cur, curID = client.New(c.Host, c.Base.Render(), c.Rt), s.rt
+			cur, curID = newHandle(c), s.rt
 		}
 		o := executeOn(cur, c, ord1[:len(c.Params)])
 		evals++
